@@ -236,12 +236,30 @@ def run(tier, seed, replay=None):
             lmeta.append({"local_correspondence": kind_, "case": j})
         except Exception as ex:
             V.fail("local correspondence: %s raises %s" % (kind_, type(ex).__name__), {"kind": kind_, "exc": str(ex)[:200]}, failing_input=False)
+    # the operator-operator case (amen_mm): column modes of any size, Model/Local.v phi_fwd4 / phi_bck4 / local_AB
+    for j in range(18 if tier == "quick" else 180):
+        ry, rY, ra_, rA, rb_, rB = [rng_l.choice([1, 2]) for _ in range(6)]; m_, k_, n_ = rng_l.choice([1, 2, 3]), rng_l.choice([1, 2]), rng_l.choice([1, 2, 3])
+        kind_ = ["phi_fwd_AB (mm)", "phi_bck_AB (mm)", "local_AB (mm)"][j % 3]
+        try:
+            y_, A_, b_ = ia((ry, m_, n_, rY)), ia((ra_, m_, k_, rA)), ia((rb_, k_, n_, rB))
+            if j % 3 == 0:
+                P_ = ia((ry, ra_, rb_)); out = AM._compute_phi_fwd_AB(T_(P_), T_(A_), T_(b_), T_(y_))
+                lcases.append("[check_phi_fwd4 (R:=Z) %d %d %s %s %s %s %s]" % (ra_, rb_, zl(P_), o4(y_), o4(A_), o4(b_), zl(out.numpy())))
+            elif j % 3 == 1:
+                P_ = ia((rY, rA, rB)); out = AM._compute_phi_bck_AB(T_(P_), T_(A_), T_(b_), T_(y_))
+                lcases.append("[check_phi_bck4 (R:=Z) %d %d %s %s %s %s %s]" % (rA, rB, zl(P_), o4(y_), o4(A_), o4(b_), zl(out.numpy())))
+            else:
+                PL_, PR_ = ia((ry, ra_, rb_)), ia((rY, rA, rB)); out = AM._local_AB(T_(PL_), T_(PR_), T_(A_), T_(b_))
+                lcases.append("[check_local_AB (R:=Z) %d %d %d %d %s %s %s %d %d %s %s]" % (ry, rY, ra_, rb_, zl(PL_), o4(A_), o4(b_), rA, rB, zl(PR_), zl(out.numpy())))
+            lmeta.append({"local_correspondence": kind_, "case": len(lcases) - 1})
+        except Exception as ex:
+            V.fail("local correspondence: %s raises %s" % (kind_, type(ex).__name__), {"kind": kind_, "exc": str(ex)[:200]}, failing_input=False)
     n_local = 0
     if ok_make and lcases:
         try:
             codes = coqrun.eval_nat_lists("C11_local", "From TT Require Import RingSig Instances Core Local.", "", lcases, shard=60)
             for dsc, c in zip(lmeta, codes):
-                if c != [0]: V.fail("correspondence(model/impl): %s of torchtt/_amen.py differs from Model/Local.v" % dsc["local_correspondence"], dict(dsc, model_code=c, expr=lcases[dsc["case"]][:1500]))
+                if c != [0]: V.fail("correspondence(model/impl): %s of torchtt/_amen.py differs from Model/Local.v" % dsc["local_correspondence"], dict(dsc, model_code=c, expr=lcases[lmeta.index(dsc)][:1500]))
                 else: n_local += 1
         except Exception as ex:
             V.fail("local correspondence: the model could not be evaluated", {"exc": str(ex)[:300]}, failing_input=False)
